@@ -410,11 +410,11 @@ func firstLine(s string) string {
 }
 
 func TestC10Builder(t *testing.T) {
-	evid.Prop(t, "builder", evid.R.N(7000, 12000), genProgram("builder", false), oracle)
+	evid.Prop(t, "builder", evid.R.N(7000, 40000), genProgram("builder", false), oracle)
 }
 
 func TestC10Model(t *testing.T) {
-	evid.Prop(t, "model", evid.R.N(5000, 9000), genProgram("model", true), oracle)
+	evid.Prop(t, "model", evid.R.N(5000, 30000), genProgram("model", true), oracle)
 }
 
 func errClass(err error) string {
